@@ -40,6 +40,7 @@ type c13Case struct {
 	Workers int       `json:"workers"`
 	Race    bool      `json:"race,omitempty"` // run the binary / shim built with the race detector
 	Procs   int       `json:"gomaxprocs,omitempty"`
+	FdLimit int       `json:"fd_limit,omitempty"` // run the tool under this descriptor limit (1024 = the usual default soft limit)
 }
 
 var colRe = regexp.MustCompile(`^\[\s*(\d+)\] (P1|P2|Q1|Q2|P|Q) (\S+)(?: (.*))?$`)
@@ -555,7 +556,13 @@ func checkC13(c c13Case) (Outcome, error) {
 	if c.InputStyle != "" {
 		out.Classes = append(out.Classes, "input-path:"+c.InputStyle)
 	}
-	pr := runTool(dir, budget, c.Procs, "", tool, "-i", inArg, "-o", rep, "-n", strconv.Itoa(c.Workers))
+	var pr procResult
+	if c.FdLimit > 0 {
+		out.Classes = append(out.Classes, fmt.Sprintf("fd-limit:%d", c.FdLimit))
+		pr = runTool(dir, budget, c.Procs, "", "sh", "-c", fmt.Sprintf(`ulimit -n %d && exec "$0" "$@"`, c.FdLimit), tool, "-i", inArg, "-o", rep, "-n", strconv.Itoa(c.Workers))
+	} else {
+		pr = runTool(dir, budget, c.Procs, "", tool, "-i", inArg, "-o", rep, "-n", strconv.Itoa(c.Workers))
+	}
 	if strings.Contains(pr.stderr, "WARNING: DATA RACE") {
 		i := strings.Index(pr.stderr, "WARNING: DATA RACE")
 		return out, violation("race:"+c.Scale, "rddetector (%s, %d files, %d workers): the race detector reports a data race:\n%s", c.Scale, len(c.Files), c.Workers, clip(pr.stderr[i:], 1800))
@@ -679,3 +686,20 @@ func genC13(t *rapid.T) c13Case {
 }
 
 func TestC13(t *testing.T) { runProp(t, "C13", genC13, checkC13) }
+
+// TestC13ManyFiles: a directory with more sample files than the usual descriptor limit (1024), in nested directories,
+// processed by few and by many workers; deterministic.
+func TestC13ManyFiles(t *testing.T) {
+	nf := envInt("VERIF_FILES", 1100)
+	var cases []c13Case
+	for _, w := range []int{3, 64} {
+		c := c13Case{Scale: "2E4", Workers: w, FdLimit: 1024}
+		for i := 0; i < nf; i++ {
+			fam := []string{"uniform", "biased", "nearflat", "markov"}[i%4]
+			q := gen.Seq{Family: fam, N: 20000, Seed: uint64(9000 + i), F: 0.47, A: 7}
+			c.Files = append(c.Files, c13File{Path: filepath.Join([]string{"", "a", "a/b", "x/y/z"}[i%4], fmt.Sprintf("s%04d.%s", i, []string{"bin", "dat"}[i%2])), Seq: q})
+		}
+		cases = append(cases, c)
+	}
+	enumerate(t, "C13", cases, checkC13)
+}
